@@ -16,7 +16,6 @@ package goja
 //@ scriptrely *generatorObject g old(g.state) != genStateExecuting ==> g.state != genStateExecuting
 //@ scriptrely *generatorObject g old(g.state) == genStateCompleted ==> g.state == genStateCompleted
 
-
 // The marker discipline of the VM (see the C03 contracts), restated for the generator object's wrappers.
 //@ define ggMarkersKept = forall m int :: 0 <= m && m < old(len(g.gen.vm.tryStack)) && (old(g.gen.vm.tryStack[m].catchPos) == tryPanicMarker && old(g.gen.vm.tryStack[m].finallyRet) == -1) ==> m < len(g.gen.vm.tryStack) && (g.gen.vm.tryStack[m].catchPos == tryPanicMarker && g.gen.vm.tryStack[m].finallyRet == -1)
 //@ define ggNoNewMarkers = forall m int :: 0 <= m && m < len(g.gen.vm.tryStack) && (g.gen.vm.tryStack[m].catchPos == tryPanicMarker && g.gen.vm.tryStack[m].finallyRet == -1) ==> m < old(len(g.gen.vm.tryStack)) && (old(g.gen.vm.tryStack[m].catchPos) == tryPanicMarker && old(g.gen.vm.tryStack[m].finallyRet) == -1)
